@@ -671,6 +671,9 @@ pub fn rechunk_sequences(
         chunked_sequences.push(sequence);
     }
 
+    // Trailing empty segments (e.g. the sequence of an empty slice) hold no row ids.
+    while segment_iter.next_if(|segment| segment.is_empty()).is_some() {}
+
     if segment_iter.peek().is_some() {
         return Err(too_many_segments_error(
             chunked_sequences.len(),
